@@ -241,6 +241,10 @@ func TestVerifC17(t *testing.T) {
 		"profile-id=0",
 		"profile-id=2;profile=1",
 		"profile=0",
+		// a parameter that is present with an EMPTY value (vs. absent, vs. the default value): whatever a
+		// side makes of it, both sides have to make the same of it
+		"profile=",
+		"profile-id=",
 		"apt=96",
 		"profile-id=2;profile-id=0;apt=97;apt=96",
 	}
